@@ -15,7 +15,11 @@
      LegacyReg    a legacy (v0/v1) registration was ingested just before the connection arrived
      Swept        the expiry sweeper removed the matched registration right after the matching verdict (before MarkActive)
      Final        what reached the covert / came back / registration state (in a history: what the real table holds for R now)
-   Silent steps: running out of transports (read -> drain) and the found -> relay step. *)
+     Return.hung  the handler had not returned when the driver gave up on it, long after every deadline, the peer having closed too:
+                  no behaviour of the specification (Terminates) - e.g. a lookup that never came back from the table's lock
+   Silent steps: running out of transports (read -> drain), the found -> relay step, and a lookup taking the table's read lock (RLock)
+   before the verdict that is logged.  Registry writers on other goroutines (the churn the driver runs while probes are being classified)
+   work on other phantoms and are not part of a connection's log: what the log shows is that every lookup comes back. *)
 EXTENDS Classify, Json, TLCExt
 TraceLog == ndJsonDeserialize("trace.ndjson")
 VARIABLE l
@@ -32,6 +36,7 @@ TraceInit == /\ c = NoCase
              /\ matched = None /\ consumed = 0 /\ used = FALSE /\ returned = FALSE
              /\ swept = FALSE /\ regLock = "free" /\ seeded = FALSE /\ dlKnown = FALSE
              /\ tab = "gone" /\ entitled = FALSE /\ snap = "none" /\ conns = 1
+             /\ rl = 0 /\ wr = "idle" /\ wleft = MaxWrites
              /\ obs = [a |-> "Init"]
              /\ l = 1
 TraceStart == /\ l <= Len(TraceLog) /\ TraceLog[l].a = "Start"
@@ -42,6 +47,7 @@ TraceStart == /\ l <= Len(TraceLog) /\ TraceLog[l].a = "Start"
               /\ matched' = None /\ consumed' = 0 /\ used' = FALSE /\ returned' = FALSE
               /\ swept' = FALSE /\ regLock' = "free" /\ seeded' = FALSE /\ dlKnown' = FALSE
               /\ tab' = TraceLog[l].tab /\ entitled' = (TraceLog[l].tab = "valid") /\ snap' = "none" /\ conns' = 1
+              /\ rl' = 0 /\ wr' = "idle" /\ wleft' = MaxWrites
               /\ obs' = [a |-> "Init"]
               /\ l' = l + 1
 
@@ -66,7 +72,7 @@ TraceStep ==
                                  \/ (HDrain /\ obs'.a = "Read" /\ obs'.n = e.n)
                                  \/ (HRelayRead /\ obs'.n = e.n)
                                  \/ (phase \in {"offer", "found"} /\ Authenticated /\ avail >= e.n /\ readn' = readn + e.n
-                                     /\ UNCHANGED <<tab, entitled, snap, conns, seeded, dlKnown, swept, regLock, c, phase, alive, todo, rcvd, sent, written, dlSet, expired, peerClosed, matched, consumed, used, returned, obs>>)
+                                     /\ UNCHANGED <<lk, tab, entitled, snap, conns, seeded, dlKnown, swept, regLock, c, phase, alive, todo, rcvd, sent, written, dlSet, expired, peerClosed, matched, consumed, used, returned, obs>>)
        [] e.a = "Verdict"     -> HOffer(e.t) /\ obs'.r = e.r /\ obs'.n = e.n /\ (e.r = "match" => e.left = rcvd - c.H)
        [] e.a = "Write"       -> (HWrite \/ (Authenticated /\ written >= MaxW /\ Unch))
        [] e.a = "Close"       -> (phase \in {"relay", "returned"} \/ expired \/ peerClosed) /\ Unch
@@ -83,6 +89,7 @@ TraceStep ==
 Silent == /\ UNCHANGED l
           /\ \/ (HRead /\ obs'.a = "OutOfTransports")
              \/ HFound
+             \/ HRLock
 TraceNext == TraceStart \/ TraceStep \/ Silent
 TraceSpec == TraceInit /\ [][TraceNext]_tvars
 ASSUME TLCSet(1, 0)
